@@ -36,6 +36,8 @@ class Contract(object):
         self.lineno = 0
         self.generic = None
         self.assumes = []       # labelled assumptions (listed in evidence)
+        self.subst = None
+        self.like = None
 
 
 class ClassInfo(object):
@@ -65,6 +67,16 @@ class SpecFn(object):
         self.opaque = False
 
 
+class _Subst(ast.NodeTransformer):
+    def __init__(self, m):
+        self.m = m
+
+    def visit_Name(self, node):
+        if node.id in self.m:
+            return ast.copy_location(ast.Constant(self.m[node.id]), node)
+        return node
+
+
 class Registry(object):
     def __init__(self):
         self.contracts = {}     # target qualname -> Contract
@@ -78,6 +90,47 @@ class Registry(object):
         for fn in sorted(os.listdir(d)):
             if fn.endswith('.py') and not fn.startswith('_'):
                 self.load_file(os.path.join(d, fn))
+        self.finish_templates()
+
+    def finish_templates(self):
+        """`like=` clones the clauses of another contract; `subst=` replaces names by constants"""
+        import copy
+        for c in list(self.contracts.values()):
+            if c.like is not None and not getattr(c, '_cloned', False):
+                src = self.contracts[c.like]
+                for attr in ('requires', 'ensures', 'raises', 'assumes'):
+                    setattr(c, attr, copy.deepcopy(getattr(src, attr)) + getattr(c, attr))
+                c.modifies = copy.deepcopy(src.modifies) + c.modifies
+                c.ghost_updates = copy.deepcopy(src.ghost_updates) + c.ghost_updates
+                for n, cls in src.invariants.items():
+                    c.invariants.setdefault(n, [])
+                    c.invariants[n] = copy.deepcopy(cls) + c.invariants[n]
+                for n, d in src.loop_types.items():
+                    dd = dict(d)
+                    dd.update(c.loop_types.get(n, {}))
+                    c.loop_types[n] = dd
+                lt = dict(src.local_types)
+                lt.update(c.local_types)
+                c.local_types = lt
+                if not c.params:
+                    c.params = list(src.params)
+                    c.ret = src.ret
+                    c.free = list(src.free)
+                for k, v in src.options.items():
+                    c.options.setdefault(k, v)
+                c._cloned = True
+        for c in self.contracts.values():
+            if c.subst and not getattr(c, '_substituted', False):
+                sub = _Subst(c.subst)
+                for attr in ('requires', 'ensures', 'raises', 'assumes'):
+                    for cl in getattr(c, attr):
+                        cl.expr = sub.visit(cl.expr)
+                c.modifies = [sub.visit(m) for m in c.modifies]
+                c.ghost_updates = [(sub.visit(a), sub.visit(b)) for a, b in c.ghost_updates]
+                for n, cls in c.invariants.items():
+                    for cl in cls:
+                        cl.expr = sub.visit(cl.expr)
+                c._substituted = True
 
     def load_file(self, path):
         src = open(path).read()
@@ -141,6 +194,10 @@ class Registry(object):
                 c.inline = ast.literal_eval(kw.value)
             elif kw.arg == 'trusted':
                 c.trusted = ast.literal_eval(kw.value)
+            elif kw.arg == 'subst':
+                c.subst = ast.literal_eval(kw.value)
+            elif kw.arg == 'like':
+                c.like = ast.literal_eval(kw.value)
             else:
                 c.options[kw.arg] = ast.literal_eval(kw.value)
         for a in node.args.args:
